@@ -1073,8 +1073,7 @@ class Application():
                     # create OrderedDict from match inside of dict for
                     # converters applying
                     req.path_args = OrderedDict(
-                        (g, c(v))for ((g, c), v) in zip(converters,
-                                                        match.groups()))
+                        (g, c(match.group(g))) for (g, c) in converters)
                     self.handler_from_before(req)   # call before handlers now
                     return handler(req, *req.path_args.values())
 
